@@ -48,6 +48,11 @@ type Prop struct {
 	MinNonTrivial int
 	// Workers overrides the number of worker processes (0 = number of CPUs).
 	Workers int
+	// Cold, if set, returns case indexes that are run once more, each as the
+	// first and only case of a fresh process (state that is initialised lazily
+	// per process is then reached by that case first).  When nil, a number of
+	// indexes derived from the seed is used.
+	Cold func(t Tier) []int
 	// PostCheck, if set, is run by the parent after all workers have
 	// finished; it may add violations or mark the run as inconclusive based
 	// on the merged events.
